@@ -175,8 +175,8 @@ class Function(object):
         # Verify other is a function
         assert isinstance(other, Function)
 
-        # Merge decomposition dicts of self and other
-        merged_decomposition_dict = merge_dict(self.decomposition_dict, other.decomposition_dict)
+        # Merge decomposition dicts of self and other, and remove the functions whose weights cancelled
+        merged_decomposition_dict = prune_dict(merge_dict(self.decomposition_dict, other.decomposition_dict))
 
         # Create and return the newly created function
         return Function(is_leaf=False,
